@@ -15,6 +15,12 @@ def run(tier, seed, t0):
         vlib.run_mc("MC_Chunks", "MC_Chunks.cfg", workers=2),
         # anti-vacuity: the historical off-by-one (loop while len >= P, final frame always sent)
         vlib.run_mc("MC_Chunks", "MC_Chunks_bug.cfg", workers=2, expect_violation="EachInRange"),
+        # the loop as a step machine: inductive invariant for EVERY L >= 0, P >= 1 (Apalache, SMT integers);
+        # TLC ties the step machine to Chunks(L, P) on the small pairs
+        vlib.run_mc("MC_ChunksInd", "MC_ChunksInd.cfg", workers=2),
+        vlib.run_apalache("ChunksInd", "ConstInit", "Init", "IndInv", 0),
+        vlib.run_apalache("ChunksInd", "ConstInit", "IndInit", "IndInv", 1),
+        vlib.run_apalache("ChunksInd", "ConstInitBug", "IndInit", "IndInv", 1, expect_violation=True),
     ]
     if tier == "thorough":
         mc.append(vlib.run_mc("MC_Chunks", "MC_Chunks_40.cfg", workers=4))
